@@ -9,6 +9,7 @@ import (
 	"fmt"
 	"math"
 	"os"
+	"regexp"
 	"sort"
 	"strconv"
 	"strings"
@@ -29,7 +30,7 @@ var shard, nshards = 0, 1
 // mine reports whether the current case id belongs to this shard; generators always run (the PRNG
 // stream is the same in every shard), only the evaluation is divided.
 func mine() bool {
-	if id < 6 { // the constants and the hand-written witness cases: shard 0 (first replays)
+	if id < 15 { // the constants and the hand-written witness cases: shard 0 (first replays)
 		if shard == 0 {
 			return true
 		}
@@ -544,6 +545,7 @@ func histCase(files [][]histLine, fkind, pat string) {
 		}
 	}()
 	var query string
+	tagSet0 := ""
 	switch fkind {
 	case "u":
 		query = ".unit:" + strconv.Quote(pat)
@@ -551,6 +553,23 @@ func histCase(files [][]histLine, fkind, pat string) {
 		query = "-.unit:" + strconv.Quote(pat)
 	case "name":
 		query = ".name:" + pat
+	case "re-prefix", "re-exact", "re-sub", "re-suffix", "nre-prefix", "nre-exact", "nre-sub", "nre-suffix":
+		// a regexp `.unit` term built from a literal, so that the driver can decide it without a
+		// regexp engine: ^lit, ^lit$, lit, lit$ (the "/" delimiter escaped)
+		lit := strings.ReplaceAll(regexp.QuoteMeta(pat), "/", `\/`)
+		switch fkind[strings.IndexByte(fkind, '-')+1:] {
+		case "prefix":
+			lit = "^" + lit
+		case "exact":
+			lit = "^" + lit + "$"
+		case "suffix":
+			lit = lit + "$"
+		}
+		query = ".unit:/" + lit + "/"
+		if fkind[0] == 'n' {
+			query = "-" + query
+		}
+		tagSet0 = "regexp"
 	default:
 		query = "*"
 	}
@@ -561,6 +580,9 @@ func histCase(files [][]histLine, fkind, pat string) {
 	tagSet := map[string]bool{}
 	if len(files) > 1 {
 		tagSet["reset"] = true
+	}
+	if tagSet0 != "" {
+		tagSet[tagSet0] = true
 	}
 	shape := "ok"
 	var rd *benchfmt.Reader
@@ -616,6 +638,17 @@ func histCase(files [][]histLine, fkind, pat string) {
 				} else {
 					bits.WriteByte('0')
 				}
+				if tagSet0 == "regexp" && res.Values[i].OrigUnit != "" {
+					a, b := litMatch(fkind, pat, res.Values[i].Unit), litMatch(fkind, pat, res.Values[i].OrigUnit)
+					switch {
+					case a && !b:
+						tagSet["rebase"] = true // the regexp matches only the base spelling
+					case !a && b:
+						tagSet["rewritten"] = true // only the written spelling
+					case a && b:
+						tagSet["reboth"] = true
+					}
+				}
 			}
 			keptL = append(keptL, bits.String())
 			n0 := len(res.Values)
@@ -655,6 +688,30 @@ func histCase(files [][]histLine, fkind, pat string) {
 	id++
 }
 
+// litMatch decides the literal-built regexp of a re-*/nre-* filter kind on one spelling (tags only).
+func litMatch(fkind, lit, u string) bool {
+	switch fkind[strings.IndexByte(fkind, '-')+1:] {
+	case "prefix":
+		return strings.HasPrefix(u, lit)
+	case "exact":
+		return u == lit
+	case "suffix":
+		return strings.HasSuffix(u, lit)
+	}
+	return strings.Contains(u, lit)
+}
+
+func isPlainASCII(s string) bool {
+	for i := 0; i < len(s); i++ {
+		if s[i] < 0x21 || s[i] > 0x7e {
+			return false
+		}
+	}
+	return true
+}
+
+var reLits = []string{"sec", "B/s", "B", "ns", "MB", "ns/op", "sec/op", "MB/s", "/op", "op", "s", "n", "zz", "sec/", "B/", "/s", "c", "e"}
+
 var plainUnits = []string{"widgets/op", "allocs/op", "sec/op", "B/s", "B/op", "op/ns", "nsec", "x"}
 var scaledUnits = []string{"ns/op", "MB/s", "ns", "MB", "ns-MB", "MB*ns/op", "ns/ns"}
 
@@ -680,7 +737,23 @@ func genHist(r *hx.Rand) {
 			files[fi] = append(files[fi], l)
 		}
 	}
-	switch r.Intn(6) {
+	switch r.Intn(9) {
+	case 6, 7, 8:
+		lit := hx.Pick(r, reLits)
+		if r.Chance(1, 3) {
+			if u := hx.Pick(r, pool); isPlainASCII(u) {
+				lit = u
+				if r.Bool() {
+					lit = tidiedName(u)
+				}
+			}
+		}
+		k := hx.Pick(r, []string{"prefix", "prefix", "exact", "sub", "suffix"})
+		if r.Chance(1, 3) {
+			histCase(files, "nre-"+k, lit)
+		} else {
+			histCase(files, "re-"+k, lit)
+		}
 	case 0, 1:
 		u := hx.Pick(r, pool)
 		if r.Bool() {
@@ -746,6 +819,16 @@ func main() {
 	histCase([][]histLine{{{"Skip", []meas{m("100", 100, "ns/op")}}, {"Keep", []meas{m("3", 3, "widgets/op")}}}}, "name", "Keep")
 	histCase([][]histLine{{{"A", []meas{m("5", 5, "B/op"), m("100", 100, "ns/op")}}, {"B", []meas{m("7", 7, "B/op"), m("3", 3, "allocs/op")}}}}, "nu", "ns/op")
 	histCase([][]histLine{{{"X", []meas{m("100", 100, "ns/op"), m("2", 2, "MB/s")}}}, {{"Y", []meas{m("5", 5, "sec/op"), m("7", 7, "B/s")}}}}, "all", "")
+
+	// regexp `.unit` terms that tell the two spellings apart (seed C04-L): anchored on the base
+	// spelling, on the written spelling, matching both, matching neither; plain and negated
+	mixed := [][]histLine{{
+		{"A", []meas{m("100", 100, "ns/op"), m("2", 2, "MB/s"), m("5", 5, "sec/op"), m("7", 7, "B/s")}},
+		{"B", []meas{m("3", 3, "sec/op"), m("0", 0, "ns/op"), m("9", 9, "B/op"), m("4", 4, "MB/s")}}}}
+	for _, w := range [][2]string{{"re-prefix", "sec"}, {"re-exact", "B/s"}, {"re-prefix", "B"}, {"nre-prefix", "sec"},
+		{"re-prefix", "ns"}, {"nre-exact", "MB/s"}, {"re-suffix", "/op"}, {"re-sub", "zz"}, {"nre-sub", "s"}} {
+		histCase(mixed, w[0], w[1])
+	}
 
 	// fixed units × special values
 	for _, u := range fixedUnits {
